@@ -206,6 +206,17 @@ def check_bslash(res):
                 except Exception:  # noqa: BLE001
                     continue
                 lang_equal(res, 'bslash', {'mode': mode, 'pattern': p1, 'pattern2': p2, 'flags': base + 'W'}, m1, m2)
+    # separator runs, escaped slashes and escaped backslashes directly behind a drive / UNC prefix (path mode)
+    dcases = [('c://a', 'c:/a'), ('c:\\\\\\\\a', 'c:/a'), ('c:/\\\\a', 'c:/a'), ('c:\\/a', 'c:/a'), ('c:\\/', 'c:/'), ('c://**/b', 'c:/**/b'),
+              ('//host/share//a', '//host/share/a'), ('//host/share\\/a', '//host/share/a'), ('//?/c:\\/a', '//?/c:/a'),
+              ('//?/UNC/host/share\\/a', '//?/UNC/host/share/a'), ('c:///*', 'c:/*'), ('d\\/a', 'd/a')]
+    for base in ('E', 'GE', 'GDE', 'GEC'):
+        for p1, p2 in dcases:
+            try:
+                m1, m2 = comp('glob', p1, base + 'W'), comp('glob', p2, base + 'W')
+            except Exception:  # noqa: BLE001
+                continue
+            lang_equal(res, 'bslash', {'mode': 'glob', 'pattern': p1, 'pattern2': p2, 'flags': base + 'W'}, m1, m2)
     res.samples.append({'bslash': ['a\\\\b', 'a/b']})
 
 
@@ -299,7 +310,7 @@ def check_walk(res):
 # ---------------------------------------------------------------- planning
 
 def menus():
-    fn_lv = pat.leaves('aA./', pat.BR_CORE + ['[A-b]', '[/]'])
+    fn_lv = pat.leaves('aA./', pat.BR_CORE + ['[A-b]', '[/]', '[\\\\]', '[a\\\\]'])
     inner = pat.leaves('aA.', pat.BR_CORE)
     top = inner + [('star', 2), ('sep', 1, False)]
     return fn_lv, inner, top
